@@ -7,7 +7,7 @@
    Racy = TRUE replaces LoadOrStore by Load-then-Store (a check-then-act lookup): kept as a named deviation so that TLC
    shows what the atomic lookup is for (two goroutines using a never-seen key get two different mutexes). *)
 EXTENDS Integers, FiniteSets, TLC
-CONSTANTS Threads, Keys, Kinds, Racy, MaxObj, ClearMode   \* ClearMode: "never" | "quiet" (only when nobody holds or awaits the key) | "any"
+CONSTANTS Threads, Keys, Kinds, Racy, MaxObj, ClearMode, WriterPref, Nest   \* ClearMode: "never" | "quiet" (only when nobody holds or awaits the key) | "any"
 VARIABLES objOf, objs, nObj, pc, key, kind, my, holdsW, holdsR
 vars == <<objOf, objs, nObj, pc, key, kind, my, holdsW, holdsR>>
 Free == [w |-> 0, r |-> {}]
@@ -15,7 +15,8 @@ Init == /\ objOf = [k \in Keys |-> 0] /\ objs = [i \in 1..MaxObj |-> Free] /\ nO
         /\ pc = [t \in Threads |-> "idle"] /\ key = [t \in Threads |-> 0] /\ kind = [t \in Threads |-> ""]
         /\ my = [t \in Threads |-> 0] /\ holdsW = [t \in Threads |-> {}] /\ holdsR = [t \in Threads |-> {}]
 \* a thread starts a critical section on a key it does not hold
-Start(t, k, kd) == /\ pc[t] = "idle" /\ k \notin holdsW[t] \cup holdsR[t]
+\* (Nest = FALSE: a goroutine holds at most one key at a time, so that the program itself cannot deadlock - used for liveness)
+Start(t, k, kd) == /\ pc[t] = "idle" /\ k \notin holdsW[t] \cup holdsR[t] /\ (Nest \/ holdsW[t] \cup holdsR[t] = {})
                    /\ pc' = [pc EXCEPT ![t] = IF Racy THEN "load" ELSE "get"] /\ key' = [key EXCEPT ![t] = k] /\ kind' = [kind EXCEPT ![t] = kd]
                    /\ UNCHANGED <<objOf, objs, nObj, my, holdsW, holdsR>>
 \* m, _ := km.m.LoadOrStore(key, &sync.Mutex{})
@@ -30,22 +31,32 @@ LoadR(t) == /\ pc[t] = "load" /\ my' = [my EXCEPT ![t] = objOf[key[t]]]
 StoreR(t) == /\ pc[t] = "store" /\ nObj < MaxObj /\ nObj' = nObj + 1 /\ objOf' = [objOf EXCEPT ![key[t]] = nObj + 1]
              /\ my' = [my EXCEPT ![t] = nObj + 1] /\ pc' = [pc EXCEPT ![t] = "acq"] /\ UNCHANGED <<objs, key, kind, holdsW, holdsR>>
 CanW(o) == objs[o].w = 0 /\ objs[o].r = {}
-CanR(o) == objs[o].w = 0
+\* sync.RWMutex prefers writers: once a writer waits in Lock, later RLock / TryRLock calls do not get in (WriterPref = TRUE is
+\* what Go does; FALSE is kept to let TLC show the reader-starves-writer behaviour it prevents)
+WriterWaits(o) == \E u \in Threads : pc[u] = "acq" /\ my[u] = o /\ kind[u] = "lock"
+CanR(o) == objs[o].w = 0 /\ (WriterPref => ~WriterWaits(o))
 TakeW(t) == /\ objs' = [objs EXCEPT ![my[t]].w = t] /\ holdsW' = [holdsW EXCEPT ![t] = @ \cup {key[t]}] /\ UNCHANGED holdsR
 TakeR(t) == /\ objs' = [objs EXCEPT ![my[t]].r = @ \cup {t}] /\ holdsR' = [holdsR EXCEPT ![t] = @ \cup {key[t]}] /\ UNCHANGED holdsW
 Acq(t) == /\ pc[t] = "acq"
           /\ CASE kind[t] = "lock" -> CanW(my[t]) /\ TakeW(t)
-               [] kind[t] = "rlock" -> CanR(my[t]) /\ TakeR(t)
+               [] kind[t] = "rlock" -> IF CanR(my[t]) THEN TakeR(t) ELSE UNCHANGED <<objs, holdsW, holdsR>>   \* registers and sleeps ("rwait")
                [] kind[t] = "try" -> IF CanW(my[t]) THEN TakeW(t) ELSE UNCHANGED <<objs, holdsW, holdsR>>     \* never blocks
                [] kind[t] = "tryr" -> IF CanR(my[t]) THEN TakeR(t) ELSE UNCHANGED <<objs, holdsW, holdsR>>
-          /\ pc' = [pc EXCEPT ![t] = "idle"] /\ UNCHANGED <<objOf, nObj, key, kind, my>>
+          /\ pc' = [pc EXCEPT ![t] = IF kind[t] = "rlock" /\ ~CanR(my[t]) THEN "rwait" ELSE "idle"] /\ UNCHANGED <<objOf, nObj, key, kind, my>>
 \* UnlockKey / RUnlockKey: look the object up again, release it
 Release(t, k) == /\ pc[t] = "idle" /\ k \in holdsW[t] \cup holdsR[t]
                  /\ objOf[k] # 0          \* (after a ClearKey in "any" mode the real code would unlock a brand-new mutex: fatal error)
-                 /\ LET o == objOf[k] IN
-                    IF k \in holdsW[t] THEN objs' = [objs EXCEPT ![o].w = 0] /\ holdsW' = [holdsW EXCEPT ![t] = @ \ {k}] /\ UNCHANGED holdsR
-                    ELSE objs' = [objs EXCEPT ![o].r = @ \ {t}] /\ holdsR' = [holdsR EXCEPT ![t] = @ \ {k}] /\ UNCHANGED holdsW
-                 /\ UNCHANGED <<objOf, nObj, pc, key, kind, my>>
+                 /\ LET o == objOf[k]
+                        \* sync.RWMutex.Unlock wakes every reader that registered while the writer held or awaited the lock, and they
+                        \* are inside before the next writer can be (simplification: every waiting writer counts as "announced")
+                        woken == {u \in Threads : pc[u] = "rwait" /\ my[u] = o} IN
+                    IF k \in holdsW[t]
+                    THEN /\ objs' = [objs EXCEPT ![o] = [w |-> 0, r |-> woken]]
+                         /\ holdsW' = [holdsW EXCEPT ![t] = @ \ {k}]
+                         /\ holdsR' = [u \in Threads |-> IF u \in woken THEN holdsR[u] \cup {key[u]} ELSE holdsR[u]]
+                         /\ pc' = [u \in Threads |-> IF u \in woken THEN "idle" ELSE pc[u]]
+                    ELSE objs' = [objs EXCEPT ![o].r = @ \ {t}] /\ holdsR' = [holdsR EXCEPT ![t] = @ \ {k}] /\ UNCHANGED <<holdsW, pc>>
+                 /\ UNCHANGED <<objOf, nObj, key, kind, my>>
 \* ClearKey(k) = Map.Delete(k): the key forgets its mutex object.  The property covers it only when no goroutine holds or
 \* awaits the key ("quiet"); ClearMode = "any" is the named hazard: LockKey; ClearKey; LockKey gives two holders of one key,
 \* and the first holder's UnlockKey then unlocks a fresh, unlocked mutex.
@@ -61,5 +72,11 @@ Exclusion == \A k \in Keys : LET W == {t \in Threads : k \in holdsW[t]}  R == {t
 \* "Holding or waiting for one key never delays ... an acquisition of a different key": whoever waits for a key is
 \* enabled as soon as no goroutine holds THAT key incompatibly, whatever happens on other keys
 Independence == \A t \in Threads : (pc[t] = "acq" /\ kind[t] = "lock" /\ \A u \in Threads : key[t] \notin holdsW[u] \cup holdsR[u]) => ENABLED Acq(t)
+\* Liveness (checked without nesting): if every holder eventually releases and the mutex objects are starvation-free (Go's
+\* sync.Mutex starvation mode: a waiter that keeps finding the lock free eventually gets it - strong fairness of Acq), every
+\* acquisition eventually returns.
+Fair == \A t \in Threads : WF_vars(Get(t)) /\ SF_vars(Acq(t)) /\ \A k \in Keys : WF_vars(Release(t, k))
+LiveSpec == Spec /\ Fair
+EveryAcquisitionReturns == \A t \in Threads : (pc[t] \in {"acq", "rwait"}) ~> (pc[t] = "idle")
 TryNeverBlocks == \A t \in Threads : (pc[t] = "acq" /\ kind[t] \in {"try", "tryr"}) => ENABLED Acq(t)
 ====
